@@ -31,3 +31,8 @@ package transaction
 //@   props C09
 //@   modifies nothing
 //@   ensures err == nil ==> len(m) > 0
+
+//@ init SignatureContext
+//@   props C09
+//@   ensures signature.ChainSep(SignatureContext)
+//@   note the consensus transaction signature context is registered WITH chain separation: a transaction signed for one chain does not verify on another
